@@ -14,6 +14,9 @@ inductive EntryOp where
   | shallowClone (kw : List (String × PyVal))
   /-- `cls.from_other_class(x, ignore_props=ignore, **kw)` with the instance itself as source -/
   | fromOtherClass (ignore : List String) (kw : List (String × PyVal))
+  /-- `cls.from_other_class(m, ignore_props=ignore, **kw)` with a MAPPING of the instance's set attributes
+      as source: a missing key reads as None (a mapping has no defaults) -/
+  | fromMapping (ignore : List String) (kw : List (String × PyVal))
   /-- `x.cast_to(cls)` for the instance's own class -/
   | castTo
 deriving Repr, Inhabited
@@ -52,6 +55,10 @@ def applyEntry (O : Oracles) (cls : FieldDecl) (x : PyVal) : EntryOp → R PyVal
     construct O cls
       (((fieldNames cls).filter (fun n => !ignore.contains n && (lookup n kw).isNone)).map
           (fun n => (n, (lookup n (instAttrs x)).getD ((lookup n (classDefaults cls)).getD .none))) ++ kw)
+  | .fromMapping ignore kw =>
+    construct O cls
+      (((fieldNames cls).filter (fun n => !ignore.contains n && (lookup n kw).isNone)).map
+          (fun n => (n, (lookup n (instAttrs x)).getD .none)) ++ kw)
   | .castTo => construct O cls (setFields cls x)
 
 /-- apply a chain of entry points; the first failure aborts -/
